@@ -523,6 +523,7 @@ def gen_ffi_tables(repo):
     funcs += '| SendViaChannel (method : string) (completes_wrapped : bool)   (* channel.inner.<method>(param.into(), <arg>, |res| callback.complete(res))?; *)\n'
     funcs += '| ReturnOk\n| OtherStep (e : string).\n'
     rows = []
+    list_rows = []
     methods = ['read_coils', 'read_discrete_inputs', 'read_holding_registers', 'read_input_registers',
                'write_single_coil', 'write_single_register', 'write_multiple_coils', 'write_multiple_registers']
     for meth in methods:
@@ -533,15 +534,21 @@ def gen_ffi_tables(repo):
         bopen = fclient.find('{', pclose)
         body = fclient[bopen + 1:matching(fclient, bopen, '{', '}') - 1]
         steps = []
+        borrow, taken = None, None
         for stmt in [s for s in rp.split_top(body, ';') if s.strip()]:
             t = ''.join(stmt.split())
-            mn = re.fullmatch(r'let(\w+)=\1\.as_(?:mut|ref)\(\)\.ok_or\(ffi::ParamError::NullParameter\)\?', t)
+            mn = re.fullmatch(r'let(\w+)=\1\.as_(mut|ref)\(\)\.ok_or\(ffi::ParamError::NullParameter\)\?', t)
+            mw = re.fullmatch(r'letargs=WriteMultiple::from\(start,(.+)\)\?', t)
             if mn:
                 steps.append(f'CheckNull {coq_str(mn.group(1))}')
+                if mn.group(1) == 'items':
+                    borrow = 'as_' + mn.group(2)
+            elif mw:
+                # how the values leave the caller's list object is recorded in `list_args`
+                steps.append('Validate "WriteMultiple::from"')
+                taken = mw.group(1)
             elif re.fullmatch(r'letrange=AddressRange::try_from\(range\.start,range\.count\)\?', t):
                 steps.append('Validate "AddressRange::try_from"')
-            elif re.fullmatch(r'letargs=WriteMultiple::from\(start,items\.inner\.clone\(\)\)\?', t):
-                steps.append('Validate "WriteMultiple::from"')
             elif t == 'letcallback=sfio_promise::wrap(callback)':
                 steps.append('WrapPromise')
             elif t == 'Ok(())':
@@ -553,7 +560,16 @@ def gen_ffi_tables(repo):
                 else:
                     steps.append('OtherStep ' + coq_str(stmt))
         rows.append(f'  ({coq_str(meth)}, [' + '; '.join(steps) + '])')
-    funcs += 'Definition client_calls : list (string * list call_step) := [\n' + ';\n'.join(rows) + '\n].\n\n'
+        if meth.startswith('write_multiple'):
+            if borrow is None or taken is None:
+                raise ParseError(f'client.rs client_channel_{meth}: no `items.as_ref()/as_mut()` null check or no `WriteMultiple::from(start, ..)`')
+            if 'items' not in taken:
+                raise ParseError(f'client.rs client_channel_{meth}: WriteMultiple::from(start, {taken}) does not mention `items`')
+            list_rows.append(f'  ({coq_str(meth)}, {coq_str(borrow)}, {coq_str(taken)})')
+    funcs += 'Definition client_calls : list (string * list call_step) := [\n' + ';\n'.join(rows) + '\n].\n'
+    funcs += ('(* the caller-owned rodbus_bit_list / rodbus_register_list of the two write-multiple functions: (function, how the handle is\n'
+              '   borrowed, the expression - whitespace removed - that hands its values to WriteMultiple::from) *)\n')
+    funcs += 'Definition list_args : list (string * string * string) := [\n' + ';\n'.join(list_rows) + '\n].\n\n'
 
     # FfiChannel (rodbus/src/client/ffi_channel.rs): order of limit check / promise creation / send per method
     funcs += '(* rodbus/src/client/ffi_channel.rs: statements of the FfiChannel request methods, in order *)\n'
